@@ -90,25 +90,18 @@ theorem stable_remapErr (s : Status) {p : P α} (hp : Stable p) : Stable (remapE
     simp only [hpe] at h
     rw [hp.out d L pos a' p1 hpe]; exact h
 
+theorem stable_readOptObj (c : Cfg) (vt : Nat) (st : Bool) : Stable (readOptObj c vt st) := by
+  unfold readOptObj; simp only [P.bind_def]; stable_tac [stable_readInt8, stable_readObj]
 theorem stable_readMdValues (c : Cfg) (vt : Nat) : Stable (readMdValues c vt) := by
-  unfold readMdValues; simp only [P.bind_def]
-  stable_tac [stable_readInt8, stable_readObj]
-
+  unfold readMdValues; simp only [P.bind_def]; stable_tac [stable_readOptObj]
 theorem stable_readTableEntry (c : Cfg) : Stable (readTableEntry c) := by
-  unfold readTableEntry; simp only [P.bind_def]
-  stable_tac [stable_readString, stable_readInt8, stable_readMdValues]
-
+  unfold readTableEntry; simp only [P.bind_def]; stable_tac [stable_readString, stable_readInt8, stable_readMdValues]
 theorem stable_readNameRow (c : Cfg) : Stable (readNameRow c) := by
-  unfold readNameRow; simp only [P.bind_def]
-  stable_tac [stable_readString, stable_readInt8, stable_readObj]
-
+  unfold readNameRow; simp only [P.bind_def]; stable_tac [stable_readString, stable_readInt8, stable_readOptObj]
 theorem stable_readColumn (c : Cfg) (rows : List NameRow) (m : Md) : Stable (readColumn c rows m) := by
   induction rows generalizing m with
   | nil => exact Stable.pure _
-  | cons r rs ih =>
-    unfold readColumn; simp only [P.bind_def]
-    stable_tac [stable_readInt8, stable_readObj, ih]
-
+  | cons r rs ih => unfold readColumn; simp only [P.bind_def]; stable_tac [stable_readOptObj, ih]
 theorem stable_readTM (c : Cfg) : Stable (readTM c) := by
   unfold readTM; simp only [P.bind_def]
   stable_tac [stable_secExpect, stable_readInt32, stable_readTableEntry, stable_readNameRow,
